@@ -101,9 +101,58 @@ func C10mirror(p *load.Program, run *report.Run) {
 				}
 				return true
 			})
+			// completeness: an exchange with the peer of a loop over the peers that is *not* under an id
+			// comparison has both parties send first (or both wait first)
+			ast.Inspect(fd.Body, func(x ast.Node) bool {
+				rs, ok := x.(*ast.RangeStmt)
+				if !ok || !strings.HasSuffix(cx(rs.X), ".peers") {
+					return true
+				}
+				var outside []string
+				var visit func(list []ast.Stmt)
+				visit = func(list []ast.Stmt) {
+					for _, st := range list {
+						switch t := st.(type) {
+						case *ast.GoStmt:
+							// sent from its own goroutine: it does not hold up the receive below
+							continue
+						case *ast.IfStmt:
+							if be, ok := t.Cond.(*ast.BinaryExpr); ok && be.Op == token.LSS && strings.HasSuffix(cx(be.X), ".id") && strings.HasSuffix(cx(be.Y), ".id") {
+								continue // an id-ordered exchange, judged above
+							}
+							if t.Init != nil {
+								outside = append(outside, commEvents([]ast.Stmt{t.Init})...)
+							}
+							visit(t.Body.List)
+							if eb, ok := t.Else.(*ast.BlockStmt); ok {
+								visit(eb.List)
+							}
+						case *ast.BlockStmt:
+							visit(t.List)
+						default:
+							outside = append(outside, commEvents([]ast.Stmt{st})...)
+						}
+					}
+				}
+				visit(rs.Body.List)
+				sends, recvs := false, false
+				for _, e := range outside {
+					if e[0] == '!' {
+						sends = true
+					} else {
+						recvs = true
+					}
+				}
+				run.Count("peer-loops", 1)
+				if _, bounded := boundedPayload[fd.Name.Name]; sends && recvs && !bounded {
+					run.Violate("id-ordered-mirror", fmt.Sprintf("gmw.%s/peer loop", fd.Name.Name), p.Rel(rs.Pos()), fmt.Sprintf("the loop over the peers does %v with each peer outside any id comparison: both parties of a pair run this same code, so both send first; with payloads larger than the connection buffers both block in their send", outside), nil)
+				}
+				return true
+			})
 		}
 	}
 	run.Floor("id-ordered-branches", 5)
+	run.Floor("peer-loops", 4)
 }
 
 // boundedPayload: functions whose id-ordered exchanges carry vectors of a constant, small size (frozen, one reason each;
